@@ -126,6 +126,8 @@ type FnV struct {
 	shl map[string]int
 	assertAt map[ast.Stmt][]*AssertClause
 	i2fCache map[string]string
+	i2fList [][2]string
+	ncut int
 	dm map[string][2]string
 	instName string
 }
